@@ -1125,6 +1125,9 @@ class ConnectionBase(object):
         pkt_type = PacketType.UNKNOWN
         msgs = [] # messages (seq, typ, msg) to include in this packet
         current_msg_length = 0 # sum of length of messages in msgs, excluding overhead
+        # room for messages and their overhead in one datagram. MAX_PAYLOAD_SIZE
+        # already has the overhead of a single message deducted
+        capacity = Packet.MAX_PAYLOAD_SIZE + Packet.MESSAGE_OVERHEAD_1
 
         # resend any messages that had the resend flag set
         # and have not yet timed out or been acked. the resend_delay is a
@@ -1142,7 +1145,7 @@ class ConnectionBase(object):
                 # calculate the size of the packet so far + this message
                 size = len(msg.payload) + Packet.overhead(1+len(msgs)) + current_msg_length
                 # if the message fits add it to the packet
-                if size <= Packet.MAX_PAYLOAD_SIZE:
+                if size <= capacity:
                     del self.pending_retry_msg[msgseq]
                     msgs.append(msg)
                     current_msg_length += len(msg.payload)
@@ -1159,7 +1162,7 @@ class ConnectionBase(object):
             # calculate the size of the packet so far + this message
             size = len(pending.payload) + Packet.overhead(1+len(msgs)) + current_msg_length
             # if the message fits add it to the packet
-            if size <= Packet.MAX_PAYLOAD_SIZE:
+            if size <= capacity:
                 self.outgoing_messages.pop(idx)
                 msgs.append(pending)
                 current_msg_length += len(pending.payload)
